@@ -472,8 +472,64 @@ class Engine:
                 if isinstance(n, ast.Attribute) and isinstance(n.ctx, ast.Store) and n.attr == name and \
                         isinstance(n.value, ast.Name) and n.value.id == "self":
                     hit = True
+                if isinstance(n, ast.Call) and ast.unparse(n.func) in ("object.__setattr__", "setattr") and len(n.args) == 3 and \
+                        isinstance(n.args[1], ast.Constant) and n.args[1].value == name and ast.unparse(n.args[0]) == "self":
+                    hit = True          # frozen dataclasses assign their fields this way
         c_[key] = hit
         return hit
+
+    def derive_ctor_field(self, obj, name):
+        """A field the real constructor creates but the contract's (hand-built) object lacks -- typically a value the
+        constructor caches.  If the constructor chain assigns it exactly once, unconditionally at the top level of the
+        constructor, from an expression that reads nothing but fields of `self` the object does have (and constants), the
+        field is that expression over the object's fields: the object the contract describes is the object right after
+        construction as far as those fields go.  Anything else is contract drift (NotImplemented)."""
+        mro = self.prog.mro(obj.cls)
+        found = []
+        for cn in mro:
+            c = self.prog.classes.get(cn)
+            for mn in ("__init__", "__post_init__"):
+                m = c.methods.get(mn) if c is not None else None
+                if m is None:
+                    continue
+                for st_ in m.node.body:          # top level only: unconditional
+                    rhs = None
+                    if isinstance(st_, ast.Assign) and len(st_.targets) == 1:
+                        t = st_.targets[0]
+                        if isinstance(t, ast.Attribute) and isinstance(t.value, ast.Name) and t.value.id == "self" and t.attr == name:
+                            rhs = st_.value
+                    elif isinstance(st_, ast.Expr) and isinstance(st_.value, ast.Call) and \
+                            ast.unparse(st_.value.func) == "object.__setattr__" and len(st_.value.args) == 3 and \
+                            isinstance(st_.value.args[1], ast.Constant) and st_.value.args[1].value == name and \
+                            ast.unparse(st_.value.args[0]) == "self":
+                        rhs = st_.value.args[2]
+                    if rhs is not None:
+                        found.append((rhs, m))
+                # assigned anywhere else in that method (nested / conditional)?  then not derivable
+                if m is not None:
+                    cnt = sum(1 for n in ast.walk(m.node) if isinstance(n, ast.Attribute) and isinstance(n.ctx, ast.Store)
+                              and n.attr == name and isinstance(n.value, ast.Name) and n.value.id == "self")
+                    top = sum(1 for r_, m_ in found if m_ is m and not isinstance(r_, type(None)))
+                    if cnt > top:
+                        return NotImplemented
+        if len(found) != 1:
+            return NotImplemented
+        rhs, m = found[0]
+        flds = self.st.heap[obj.oid]
+        for n in ast.walk(rhs):
+            if isinstance(n, ast.Name) and n.id != "self" and n.id not in m.module.consts and n.id not in ("len", "int", "round", "float", "abs", "min", "max"):
+                return NotImplemented                 # reads a constructor parameter or a local
+            if isinstance(n, ast.Attribute) and isinstance(n.value, ast.Name) and n.value.id == "self" and n.attr not in flds \
+                    and self.prog.find_method(obj.cls, n.attr) is None:
+                return NotImplemented
+            if isinstance(n, (ast.Call,)) and not (isinstance(n.func, ast.Name) and n.func.id in ("len", "int", "round", "float", "abs", "min", "max")):
+                return NotImplemented
+        try:
+            v = self.eval(rhs, Frame(m, {"self": obj}))
+        except (PyRaise, Unsupported):
+            return NotImplemented
+        self.used_inline.add("%s.%s (derived from the constructor's `%s`)" % (obj.cls, name, ast.unparse(rhs)[:60]))
+        return v
 
     def frame_static_checks(self, fi):
         """Frame conditions that hold of every function of the repository on the pinned tree and on which every
@@ -1160,6 +1216,10 @@ class Engine:
                     if name in hm:
                         return IfaceMethod(obj, name, hm[name])
             if self.ctor_assigns(obj.cls, name) and not self.st.ghost.get("in_init", {}).get(obj.oid):
+                dv = self.derive_ctor_field(obj, name)
+                if dv is not NotImplemented:
+                    flds[name] = dv
+                    return dv
                 # the real constructor creates this field, the object the harness built does not have it: the harness is
                 # out of date with the class (contract drift) -- not an AttributeError of the program
                 raise Unsupported("contract drift: %s.__init__ creates the field %r, which the contract's object does not know" % (obj.cls, name))
